@@ -330,12 +330,9 @@ static void __attribute__ ((noinline)) poison_stack (void) {
   __asm__ volatile ("" : : "r" (buf) : "memory");
 }
 
-static double now_s (void) { struct timespec ts; clock_gettime (CLOCK_MONOTONIC, &ts); return ts.tv_sec + ts.tv_nsec / 1e9; }
-static double t_body0;
 static int hook (io_event_t *ev, int max, struct timeval *tmo) {
   (void) max; (void) tmo;
   int n = 0;
-  if (getenv ("NL_TIMING")) vx_obs ("T hook %.4f", now_s () - t_body0);
   end_of_cycle ();
   insn_in_cycle = 0;
   if (step < depth) {
@@ -470,7 +467,6 @@ static void final_oracle (void) {
 static void push_str (const char *s) { copy_and_push_string ((char *) s); }
 
 static void body (void) {
-  t_body0 = now_s ();
   int pi = vx_choose_free (nplans, "plan");
   P = plans[pi];
   vx_obs ("plan %d: kind=%s pos=%d nth=%d every=%d handler_fails=%d console=%d hostile=%s ret=%d", pi, kind_name[P.kind], P.pos, P.nth, P.every,
@@ -498,7 +494,6 @@ static void body (void) {
   returned = 1;
   if (!we_shutdown) fail_hist ("C09:backend-returned-early", "backend() returned at step %d although the environment never asked for a shutdown", step);
   final_oracle ();
-  if (getenv ("NL_TIMING")) vx_obs ("T end %.4f", now_s () - t_body0);
   vx_count (0, 1);
 }
 
